@@ -1,18 +1,37 @@
 #!/bin/bash
-# check.sh <ID> <quick|thorough>   — rebuilds the harness against /repo's working tree and runs one check.
+# check.sh <ID> <quick|thorough>   — rebuilds the harness against the repository's working tree and runs one check.
 # check.sh build                  — build only (setup).
+# The repository is /repo; for experiments on a scratch worktree set VERIF_REPO=<dir> (the harness and the
+# gogreement binary are then built from that tree into a private bin directory).
 set -u
 cd /verif/mc || exit 2
 export GOFLAGS=-mod=mod GOPROXY=off
 unset GOGREEMENT_SCAN_TESTS GOGREEMENT_EXCLUDE_PATHS GOGREEMENT_EXCLUDE_CHECKS GOGREEMENT_ENV_ONLY
-mkdir -p /verif/bin /verif/evidence
-build() {
-  go build -tags verif -overlay /verif/hooks/overlay.json -o /verif/bin/mc ./cmd/mc || { echo "HARNESS-ERROR: harness build failed"; exit 2; }
+REPO=${VERIF_REPO:-/repo}
+BIN=/verif/bin
+MODARGS=()
+OVERLAY=/verif/hooks/overlay.json
+if [ "$REPO" != /repo ]; then
+  BIN=/verif/bin/alt-$(echo "$REPO" | md5sum | cut -c1-10)
+  mkdir -p "$BIN"
+  sed "s#=> /repo#=> $REPO#" go.mod > "$BIN/go.mod"
+  cp go.sum "$BIN/go.sum"
+  sed "s#/repo/#$REPO/#" /verif/hooks/overlay.json > "$BIN/overlay.json"
+  MODARGS=(-modfile="$BIN/go.mod")
+  OVERLAY="$BIN/overlay.json"
+fi
+export VERIF_REPO=$REPO VERIF_BIN=$BIN
+mkdir -p "$BIN" /verif/evidence
+build_mc() {
+  go build "${MODARGS[@]}" -tags verif -overlay "$OVERLAY" -o "$BIN/mc" ./cmd/mc || { echo "HARNESS-ERROR: harness build failed"; exit 2; }
+}
+build_tool() {
+  (cd "$REPO" && go build -o "$BIN/gogreement" ./cmd/gogreement) || { echo "HARNESS-ERROR: gogreement build failed"; exit 2; }
 }
 if [ "${1:-}" = build ]; then
-  build
-  (cd /repo && go build -o /verif/bin/gogreement ./cmd/gogreement) || exit 2
+  build_mc
+  build_tool
   exit 0
 fi
-build
-exec /verif/bin/mc "$@"
+build_mc
+exec "$BIN/mc" "$@"
